@@ -59,8 +59,8 @@ impl C12 {
     }
 }
 
-const TIMES: &[&str] = &["0", "0.00000000000000001", "10", "10", "20", "-5", "10.5", "1e3", "2147483648", "abc", " 7 ", "10.000000000000001", "20", "0"];
-const BLS: &[&str] = &["500", "-100", "-50", "0", "-0.5", "1e9", "3000000000", "NaN", "-1000000", "5", "70000", "-20", "x", "inf", "-inf", "333.33", "-100", "500", "6", "60000", "-1000", "-10"];
+const TIMES: &[&str] = &["0", "0.00000000000000001", "10", "10", "20", "-5", "10.5", "1e3", "2147483648", "abc", " 7 ", "10.000000000000001", "20", "0", "0.00000000000000015", "0.0000000000000003", "-0.0000000000000001", "0.00000000000000045", "0.5", "0.5000000000000001"];
+const BLS: &[&str] = &["500", "-100", "-50", "0", "-0.5", "1e9", "3000000000", "NaN", "-1000000", "5", "70000", "-20", "x", "inf", "-inf", "333.33", "-100", "500", "6", "60000", "-1000", "-10", "-100.00000000000001", "-200", "-200.00000000000003", "-400", "-400.00000000000006", "-1000.0000000000001", "-10000", "-100000"];
 const SIGS: &[&str] = &["4", "3", "0", "05", "-1", "7", "", "x", "4"];
 const BANKS: &[&str] = &["0", "1", "2", "3", "4", "-1", "x"];
 const CUSTOMS: &[&str] = &["0", "1", "2", "x"];
